@@ -89,6 +89,12 @@ def sig_with_meta(rng):
     if a.upgrade_method == UpgradeMethod.MIGRATIONS:
         a.applied_migrations = ['0001_initial', '0002_more']
     msig = ModelSignature.from_model(m)
+    if rng.random() < 0.3:
+        # a many-to-many field that names its table
+        from django_evolution.signature import FieldSignature
+        msig.add_field_sig(FieldSignature(field_name='tags', field_type=models.ManyToManyField,
+                                          field_attrs={'db_table': rng.choice(['vapp_alpha_labels', 't"x'])},
+                                          related_model='vapp.Alpha'))
     if rng.random() < 0.5:
         # attribute values as mutations leave them in a signature (ChangeField(max_length=None), db_column=''
         # and so on): explicitly stored values that equal the default, are None, or are falsy
@@ -118,7 +124,9 @@ def attr_load_correspondence(ctx, n):
         stored = OrderedDict()
         for k in ctx.rng.sample(pool, ctx.rng.randint(0, 6)):
             stored[k] = ctx.rng.choice([None, None, False, True, 0, 7, '', 'x'])
-        known = [a for a in FieldSignature._iter_attrs_for_field_type(ft) if not hasattr(FieldSignature, a)]
+        # every attribute name tracked for the type: none of them is meant to be shadowed by something defined on the
+        # FieldSignature class itself (deserialize skips such names)
+        known = list(FieldSignature._iter_attrs_for_field_type(ft))
         d = {'type': '%s.%s' % ('django.db.models', ft.__name__), 'attrs': stored}
         if ft in (models.ForeignKey, models.ManyToManyField):
             d['related_model'] = 'vapp.Alpha'
